@@ -90,7 +90,8 @@ def _gen_op(ch: core.Chooser, nslots: int, names: List[str]) -> dict:
         node["by"] = ch.choice(["name", "name", "index", "poly"])
         node["twice"] = ch.chance(0.2)
     if fn in ("call_full", "call_partial", "call_poly"):
-        node["vals"] = [ch.choice([0, 1, 2, 3]) for _ in names]  # non-negative ints: negative Python ints hit an unrelated evaluation defect (C02), floats would change the dtype only where an unused name is still listed
+        node["vals"] = [ch.choice([0, 1, 2, 3, -1, -2]) for _ in names]  # ints (floats would change the dtype only where an unused name is still listed)
+        node["list_arg"] = ch.sub("list").chance(0.2)  # the point given as a list (an array-like)
         node["var"] = ch.choice(names)
     if fn == "getitem":
         node["idx"] = ch.below(2)
@@ -401,6 +402,8 @@ class Exec:
             return const(**{var: numpy.array([v, v + 1, v + 3]) if node.get("array_arg") else v})
         if fn in ("call_full", "call_partial", "call_poly"):
             vals = dict(zip(self.plan["names"], node["vals"]))
+            if node.get("list_arg"):
+                vals = {k: [v, v + 1] for k, v in vals.items()}
             if fn == "call_full":
                 return a(**{nm: vals[nm] for nm in a.names})
             var = node["var"]
